@@ -10,10 +10,10 @@ package model
 //@ fn StatusFromJSON(s) (st, err)
 //@   props C08 C16 C20
 //@   trusted
-//@   modifies heap(alloc), ghost obs.json_st, ghost obs.json_err
-//@   ensures obs.json_st == st && obs.json_err == err
-//@   ensures err != nil ==> st == nil
-//@   ensures err == nil ==> st != nil
+//@   modifies heap(alloc), ghost obs.json_st, ghost obs.json_err, ghost obs.json_calls, ghost obs.json_ok, ghost obs.json_last_ok
+//@   ensures obs.json_st == st && obs.json_err == err && obs.json_calls == old(obs.json_calls) + 1
+//@   ensures err != nil ==> (st == nil && obs.json_ok == old(obs.json_ok) && obs.json_last_ok == old(obs.json_last_ok))
+//@   ensures err == nil ==> (st != nil && obs.json_ok == old(obs.json_ok) + 1 && obs.json_last_ok == st)
 
 // A run recorded as running whose process is gone counts as failed; everything else is left as recorded.
 //@ fn (*Status).CorrectRunningStatus(st)
